@@ -182,6 +182,10 @@ def script(spec):
             L += ['init 1 %d 0' % sid, 'add_searchpath 1 %s' % hx(spec['dirs'][0]), 'parse_fp 1 %s' % hx('one { i = -2 deep { i = -2 } }\n')]      # (parse_fp: this preparatory parse is not one of the judged lookups)
             L += ['add_searchpath 1 %s' % hx(d) for d in spec['dirs'][1:]]
             L += ['parse_buf 1 %s' % hx('one { deep { include("%s") } }\n' % nm), 'get 1 int %s 0' % hx('one|deep|i'), 'free 1']
+            # ... and the same with the earlier parse coming from a source of the SAME name (a buffer again)
+            L += ['init 1 %d 0' % sid, 'add_searchpath 1 %s' % hx(spec['dirs'][0]), 'parse_buf_errno 1 %s 0' % hx('one { i = -2 deep { i = -2 } }\nmulti { i = -3 }\n')]
+            L += ['add_searchpath 1 %s' % hx(d) for d in spec['dirs'][1:]]
+            L += ['parse_buf 1 %s' % hx('one { deep { include("%s") } }\n' % nm), 'get 1 int %s 0' % hx('one|deep|i'), 'free 1']
     return '\n'.join(L)
 
 
